@@ -51,7 +51,13 @@ RULE = ('correspondence: (1) fixup_one_index / fixup_slice_indices exhaustively 
         'cut() of windows and of singleton views (returned elements, tree and view bounds afterwards), replace/remove through '
         'singleton views; (P4) fixed interleaved call-argument shapes x real fields x every empty/one-element range x entry '
         'points; no-op requests (deleting an empty range) and FST.replace(code, one=False) on an element are entry points too; '
-        'then the randomised sweep: for every (kind, field) witness family (all list fields with a '
+        '(P5) refusal product: every marker shape of `arguments` (`/`, bare `*`, *args, kw-only with/without defaults, **kw) in '
+        'def / async def / lambda x every position x code of every argument kind incl. invalid orderings; interleaved Call / '
+        'ClassDef arguments likewise; every family with unparsable code: if the request raises, source and full tree dump must '
+        'be unchanged (tree == parse of source) and a following valid edit must give the expected tree and source; if it is '
+        'carried out the tree must equal the parse of the new source; in all products and in the plain-layout part of the '
+        'randomised sweep the resulting SOURCE is judged too (ast.parse of it must have the expected structure); identifier '
+        'and expression pools contain multi-byte names in every position; then the randomised sweep: for every (kind, field) witness family (all list fields with a '
         'slice handler, all virtual fields, AST-valued optional fields) and for corpus programs: random (start, stop) in '
         'raw forms (negative, out of range, "end"), 0-2 new elements, through every equivalent entry point on twin copies '
         'in several layouts; whole-tree ast.dump must equal CPython\'s parse of the source rendered from '
@@ -77,8 +83,8 @@ TRUSTED = [
     'minimum length, requests Python reads as an empty slice with start > stop (documented IndexError refusal), '
     'element.replace()/remove() on Compare operands and on interleaved call arguments (the element\'s own real field refuses '
     'and points to the virtual field), NodeError/ValueError ordering refusals on the real fields args/bases/keywords of '
-    'interleaved calls (counted in notes); validity of the resulting SOURCE is checked only for those interleaved real-field '
-    'edits (elsewhere it is C01\'s subject)',
+    'interleaved calls (counted in notes; the tree and source must be unchanged after them); the resulting SOURCE is judged in '
+    'the deterministic products, the view histories and the plain-layout part of the random sweep, not on mutate_layout variants',
 ]
 ASSUMPTIONS = ['a handler given (start, stop) edits exactly that range (checked per case by the sweep, not proved)',
                'CPython ast.parse of the rendered expected source is the judge of the expected structure']
@@ -177,6 +183,13 @@ def _sweep(ctx, per_family, per_optional, n_progs, per_prog, full_product=False)
     for lst in pmap(c03_edits.run_name_case, c03_edits.name_items(full_product)):
         n0 += len(lst)
         _report(ctx, lst)
+    # deliberately refused requests: everything must stay as it was and a following valid edit behaves as on a fresh tree
+    nref = 0
+    for lst in pmap(c03_edits.run_refusal_case, c03_edits.refusal_items()):
+        n0 += len(lst)
+        nref += sum(1 for r in lst if r.get('refused'))
+        _report(ctx, lst)
+    ctx.notes['refusal_product_requests_refused'] = nref
     # read / auxiliary forms of the view API on every window: view[i], at(i), at(i, True), sub-slices, bounds, has_rest,
     # copy / cut of windows and singleton views, edits through singleton views
     for lst in pmap(c03_edits.run_view_query_case, c03_edits.view_query_items(full_product)):
@@ -230,7 +243,7 @@ def _sweep(ctx, per_family, per_optional, n_progs, per_prog, full_product=False)
 
 def sweep(ctx):
     q = ctx.quick
-    n = _sweep(ctx, 100 if q else 800, 50 if q else 400, 300 if q else 2500, 8 if q else 12, full_product=not q)
+    n = _sweep(ctx, 60 if q else 800, 40 if q else 400, 200 if q else 2500, 6 if q else 12, full_product=not q)
     ctx.notes['sweep_edits'] = n
     zero = [f.name + '/' + f.tag for f in c03_edits.FAMILIES
             if not ctx.dist.get('kind_field', {}).get(f.name + (('/' + f.tag) if f.tag else ''))]
@@ -254,6 +267,11 @@ def replay(ctx, data):
         ci, field, doc, shape = w['name_args']
         for r in c03_edits.run_name_case((ci, field, doc, shape)):
             if 'fail' in r and (r['a'], r['b'], r['new'], r['op']) == (w['a'], w['b'], w['new'], w['op']):
+                ctx.fail(f'C03|{r["sigop"]}|{r["fam"]}|{r["fail"]}', f'{r["op"]} on {r["fam"]}: {r["fail"]} {r.get("detail", "")}', r)
+        return
+    if w.get('refusal_args'):
+        for r in c03_edits.run_refusal_case(tuple(w['refusal_args'])):
+            if 'fail' in r and (r['src'], r['new'], r['op']) == (w['src'], w['new'], w['op']):
                 ctx.fail(f'C03|{r["sigop"]}|{r["fam"]}|{r["fail"]}', f'{r["op"]} on {r["fam"]}: {r["fail"]} {r.get("detail", "")}', r)
         return
     if w.get('query_args'):
